@@ -9,6 +9,8 @@ mod typegen;
 mod c12;
 mod c06;
 mod c10;
+mod sqlite;
+mod c08;
 
 fn main() {
     let args: Vec<String> = std::env::args().collect();
@@ -52,6 +54,7 @@ fn main() {
         "C12" => c12::run(&outdir, seed, thorough),
         "C06" => c06::run(&outdir, seed, thorough),
         "C10" => c10::run(&outdir, seed, thorough),
+        "C08" => c08::run(&outdir, seed, thorough),
         p if p.starts_with("C06@") => c06::child(p[4..].parse().unwrap(), &outdir, seed, thorough),
         "GEN-RULES" => { if let Err(e) = rules::generate(&outdir) { eprintln!("{}", e); std::process::exit(1); } return; }
         _ => { eprintln!("unknown property {}", prop); std::process::exit(2); }
